@@ -7796,7 +7796,8 @@ static hawk_val_t* __eval_getline (hawk_rtx_t* rtx, hawk_nde_t* nde)
 	if (p->in)
 	{
 		v = io_nde_to_str(rtx, p->in, &dst, 0);
-		if (!v || dst.len <= 0)
+		if (HAWK_UNLIKELY(!v)) return HAWK_NULL; /* the expression for the input name has failed to evaluate. there is no value to free */
+		if (dst.len <= 0)
 		{
 			hawk_rtx_freevaloocstr (rtx, v, dst.ptr);
 			hawk_rtx_refdownval (rtx, v);
@@ -7903,7 +7904,8 @@ static hawk_val_t* __eval_getbline (hawk_rtx_t* rtx, hawk_nde_t* nde)
 	if (p->in)
 	{
 		v = io_nde_to_str(rtx, p->in, &dst, 0);
-		if (!v || dst.len <= 0)
+		if (HAWK_UNLIKELY(!v)) return HAWK_NULL; /* the expression for the input name has failed to evaluate. there is no value to free */
+		if (dst.len <= 0)
 		{
 			hawk_rtx_freevaloocstr (rtx, v, dst.ptr);
 			hawk_rtx_refdownval (rtx, v);
